@@ -353,6 +353,7 @@ func runC09(c *Ctx) {
 	c.L.Floor("C09.no-stale-after-relock", 1)
 	c.L.Floor("C09.refusal-pure", 1)
 	c09Config(c)
+	c09Bounds(c)
 	c.L.Floor("C09.set-result", 1)
 	c.L.Floor("C09.get-counts", 2)
 
